@@ -443,3 +443,28 @@ Definition check_event_rate_counts (rep : bool) (bsz stp : Z) (cs : list events)
               | Some o => Some (map r_counts o)
               | None => None
               end) got.
+
+(* added after the repair "iirfilter and decimate ignore zero-length chunks" (scipy's lfilter returns an undefined
+   final state for an empty input): a zero-length chunk emits nothing and leaves the filter state, the held-back
+   remainder and the counters untouched.
+   iirfilter: `while y.shape[-1] == 0: y = (yield)` before the initial state is scaled, `continue` afterwards.
+   decimate : `s0 = getattr(y, 's0', 0)` is still read from the very first chunk, also when it is empty. *)
+Definition skip_empty {S A O} (step : S -> blk A -> option (S * list O)) (s : S) (c : blk A)
+  : option (S * list O) :=
+  match dat c with [] => Some (s, []) | _ => step s c end.
+
+Definition iir_step_e {F A} (rep : bool) (filt : F -> A -> F * A) (finit : A -> F)
+  : option F -> blk A -> option (option F * list (blk A)) :=
+  skip_empty (iir_step rep filt finit).
+
+Definition decimate_step_e {F A} (rep : bool) (filt : F -> A -> F * A) (zf0 : F) (q : Z)
+  (s : option (dec_st F A)) (c : blk A) : option (option (dec_st F A) * list (blk A)) :=
+  match dat c with
+  | [] => Some (Some (match s with Some st => st | None => DecSt zf0 (s0_of c) None end), [])
+  | _ => decimate_step rep filt zf0 q s c
+  end.
+
+Definition check_iir_e (rep : bool) h s0 sizes got : bool :=
+  eqb_outs (outs_of (run (iir_step_e rep sfilt sfinit) None (inputs h s0 sizes))) got.
+Definition check_decimate_e (rep : bool) (q : Z) h s0 sizes got : bool :=
+  eqb_outs (outs_of (run (decimate_step_e rep sfilt 0 q) None (inputs h s0 sizes))) got.
